@@ -43,6 +43,9 @@ ENV = """
             panic!("map full")
         }
     }
+    impl<K: PartialEq + Copy, V: Copy> std::iter::FromIterator<(K, V)> for HashMap<K, V> {
+        fn from_iter<I: IntoIterator<Item = (K, V)>>(iter: I) -> Self { let mut m = HashMap::new(); for (k, v) in iter { m.insert(k, v); } m }
+    }
 """
 
 
